@@ -1,6 +1,8 @@
 import Chain33Model.Model.C29
 import Chain33Model.Proofs.C29Recover
 import Chain33Model.Proofs.C29Resume
+import Chain33Model.Proofs.C29Witness
+import Chain33Model.Proofs.C29Seq
 import Chain33Model.Props.C25
 /-!
 C29 — Block connection is crash-consistent.  Property theorems.
@@ -32,7 +34,12 @@ databases succeeds, and the recovered node
   header/body record is present and whose stored total difficulty is the tree's, the transaction
   index is exactly the chain's;
 * the state tree of every chain block — in particular the tip's — is completely present in the
-  store (the state batch precedes the chain batch; the store is only ever extended). -/
+  store (the state batch precedes the chain batch; the store is only ever extended);
+* with sequence recording on, the surviving sequence log is numbered consecutively from 0 and its
+  replay (add records push, delete records pop — C26) yields exactly the recovered chain.
+
+(`fin`, the finalised height, is not part of the conclusion: the finaliser's own point writes are
+not in the write model and `recover` restarts from the initial value `F`.) -/
 theorem crash_prefix_consistent {g : Block} {T : List Block} (ht : Tree g T) (F m : Nat) (r : Bool)
     (ds : List Block) (hds : ∀ b ∈ ds, b ∈ T) (n : Nat) :
     ∃ sr, recover F m r (crash F m r g ds n) = some sr ∧
@@ -41,14 +48,24 @@ theorem crash_prefix_consistent {g : Block} {T : List Block} (ht : Tree g T) (F 
       (∀ t rest, sr.best = t :: rest → sr.last = t.height) ∧
       (∀ x ∈ sr.best, x ∈ g :: T ∧ sr.stored x.id = some x ∧ sr.tds x.id = some (TD (g :: T) x)) ∧
       sr.txIdx = txViewOf sr.best ∧
-      (∀ x ∈ sr.best, (crash F m r g ds n).roots x.id = true) := by
+      (∀ x ∈ sr.best, (crash F m r g ds n).roots x.id = true) ∧
+      (r = true → C26.replay (seqLog sr) = some (sr.best.map (·.id)) ∧ 0 ≤ sr.lastSeq ∧
+        ∀ i : Nat, (sr.seqTab i).isSome ↔ (i : Int) ≤ sr.lastSeq) := by
   obtain ⟨hsim, hcons⟩ := crash_image ht F m r ds hds n
-  obtain ⟨sr, hrec, e1, e2, e3, e4, e5, e6, e7, e8, _⟩ := recover_of_sim F m r hsim hcons
+  obtain ⟨sr, hrec, e1, e2, e3, e4, e5, e6, e7, e8, e9, _, e11, _⟩ := recover_of_sim F m r hsim hcons
   refine ⟨sr, hrec, by rw [e1, bestAt_eq], by rw [e2, e1], e3, by rw [e1]; exact hcons.linked,
     fun h => by rw [e6, e1]; exact hcons.h2h h, fun t rest hb => by rw [e7]; exact hcons.last t rest (e1 ▸ hb),
-    fun x hx => ?_, by rw [e8, e1]; exact hcons.txv, fun x hx => hsim.roots x (e1 ▸ hx)⟩
-  rw [e4, e5]
-  exact hcons.blocks x (e1 ▸ hx)
+    fun x hx => ?_, by rw [e8, e1]; exact hcons.txv, fun x hx => hsim.roots x (e1 ▸ hx), ?_⟩
+  · rw [e4, e5]
+    exact hcons.blocks x (e1 ▸ hx)
+  · intro hr
+    subst hr
+    have hq := seq_stateAt F m g ds n
+    dsimp only at hq
+    have hlog : seqLog sr = seqLog (stateAt (init F m true g) (deliverAllT (init F m true g) ds) n) := by
+      simp only [seqLog, e9, e11]
+    rw [hlog, e1, e9, e11]
+    exact hq
 
 /-- **writes_replay_run.**  The write sequence is faithful to the chain model of C25: replaying ALL
 writes of a run on the initial disk gives exactly the persisted tables of the run's final state
@@ -77,7 +94,58 @@ example :
     ((recover 0 2 true (crash 0 2 true g T 14)).map (fun s => s.best.map (·.id))) = some [4, 1, 0] := by
   refine ⟨⟨rfl, by unfold UniqIds; decide, by decide, by decide⟩, by decide, by decide, by decide, by decide, by decide⟩
 
-/-- **resume_converges.**  For EVERY history `ds` over a block tree that delivers each block at
+/-- The last clause of the property at the strength of its text — "continued processing reaches the
+same final chain as an uninterrupted run" — in its friendliest reading: after ANY crash point the
+node is restarted and receives THE SAME history once more.  No hypothesis on total difficulties.
+It is FALSE of the model and of the code (`resume_full_false`). -/
+def ResumeFullStatement : Prop :=
+  ∀ (g : Block) (T : List Block) (m : Nat) (r : Bool) (ds : List Block) (n : Nat),
+    Tree g T → (∀ b ∈ ds, b ∈ T) → (∀ b ∈ T, b ∈ ds) →
+    ∃ sr, recover 0 m r (crash 0 m r g ds n) = some sr ∧
+      (deliverAll sr ds).best = (deliverAll (init 0 m r g) ds).best
+
+/-- **Refutation of the full statement (total-difficulty tie).**  Witness `tieT` / `tieDs`
+(`Proofs/C29Witness.lean`): blocks 4 and 5 tie at the top; the uninterrupted run ends on 0–1–4
+(4 is seen first); after a crash right after the connect batch of block 1 (write 8, inside the
+reorganisation) the recovered node holds 0–1 only — orphan pool and side-chain index are memory
+only — and the same history then connects 3 and 5 first, 4 only ties: final chain 0–1–3–5.
+Replayed on the real code by `corpus/C29/tie-resume.ops` (finding
+`C29|resume|different-final-chain-of-equal-total-difficulty`). -/
+theorem resume_full_false : ¬ ResumeFullStatement := by
+  intro h
+  obtain ⟨sr, h1, h2⟩ := h tieG tieT 1 false tieDs 8
+    ⟨rfl, by unfold UniqIds; decide, by decide, by decide⟩ (by decide) (by decide)
+  have e1 : (recover 0 1 false (crash 0 1 false tieG tieDs 8)).map
+      (fun s => (deliverAll s tieDs).best.map (·.id)) = some [5, 3, 1, 0] := by decide
+  have e2 : (deliverAll (init 0 1 false tieG) tieDs).best.map (·.id) = [4, 1, 0] := by decide
+  rw [h1] at e1
+  simp only [Option.map] at e1
+  rw [h2, e2] at e1
+  exact absurd e1 (by decide)
+
+/-- "Continued processing" read as "only the deliveries that had not happened yet": also false,
+even with a unique heaviest block, because blocks accepted on a side chain (or waiting in the orphan
+pool) before the crash are forgotten by the restart.  Witness `sfxT`: 1 connected, 2 on a side
+chain (tie), crash; block 3 (child of 2, heavier) alone then waits as an orphan for ever, while the
+uninterrupted run reorganises to 0–2–3.  Hence the hypothesis of `resume_converges_partial` that
+the continuation delivers every block again (what block synchronisation does for unknown parents). -/
+theorem resume_suffix_only_false :
+    (deliverAll (init 0 1 false sfxG) sfxT).best.map (·.id) = [3, 2, 0] ∧
+    (writesOf (init 0 1 false sfxG) (sfxT.take 2)).length = 4 ∧
+    (recover 0 1 false (crash 0 1 false sfxG sfxT 4)).map
+      (fun s => ((deliverAll s (sfxT.drop 2)).best.map (·.id), (deliverAll s (sfxT.drop 2)).orphans.map (·.id)))
+      = some ([1, 0], [3]) := by
+  refine ⟨by decide, by decide, by decide⟩
+
+/-- **resume_converges_partial.**  (`ResumeFullStatement` with added hypotheses — each one is
+necessary: `hmax`/`hel`: the heaviest block is unique and at least the margin high, as in C25's
+`order_independent` (refuted without: `resume_full_false`); `hall'`: the continuation (re-)delivers
+every tree block (refuted without: `resume_suffix_only_false`); finalised height 0: no finaliser
+is configured in the node under test, the finaliser's own point writes
+(`finalizer.setFinalizedBlock` / `reset`) are not in the write model and `recover` restarts from the
+initial finalised height.)
+
+For EVERY history `ds` over a block tree that delivers each block at
 least once, EVERY crash point `n`, and EVERY continuation `ds'` that (re-)delivers each tree block at
 least once (for instance the same history again; any order, duplicates): if the heaviest block `w`
 is unique and at least the margin high (no finaliser: finalised height 0, as in the node under
@@ -88,7 +156,7 @@ last height and transaction index — with nothing left in the orphan pool.
 Proof: the recovered node is in lock step (`Rel`, `Proofs/C29Resume.lean`) with a fresh node fed the
 recovered chain in order; the latter's continuation is a delivery sequence from genesis, to which
 C25's `order_independent` applies, as it does to the uninterrupted run. -/
-theorem resume_converges {g : Block} {T : List Block} (ht : Tree g T) (m : Nat) (r : Bool)
+theorem resume_converges_partial {g : Block} {T : List Block} (ht : Tree g T) (m : Nat) (r : Bool)
     (ds : List Block) (hds : ∀ b ∈ ds, b ∈ T) (hall : ∀ b ∈ T, b ∈ ds)
     (w : Block) (hw : w ∈ g :: T) (hmax : ∀ b ∈ g :: T, b ≠ w → TD (g :: T) b < TD (g :: T) w)
     (hel : m ≤ w.height) (n : Nat)
@@ -119,7 +187,7 @@ theorem resume_converges {g : Block} {T : List Block} (ht : Tree g T) (m : Nat) 
   exact ⟨by rw [hrel'.best, a1], by rw [hrel'.best, a1, b1], by rw [hrel'.h2h, a3, b3],
     by rw [hrel'.last, a4, b4], by rw [hrel'.txIdx, a5, b5], by rw [hrel'.orphans, a7]⟩
 
-/-- Non-vacuity of `resume_converges`: the tree and history of the example above (unique heaviest
+/-- Non-vacuity of `resume_converges_partial`: the tree and history of the example above (unique heaviest
 block 4 at height 2 = margin).  Crashing inside the reorganisation (after write 11: `D3`; after 13:
 state of block 4 written, its chain batch not) and re-delivering the history ends in 0–1–4. -/
 example :
